@@ -247,9 +247,17 @@ impl InnerInMemory {
 
         // TODO: maybe unwrap this recursion.
         match lookup {
+            // RFC 4592 section 2.2.1: a name that exists, with other types or as an empty
+            // non-terminal, is never answered from a wildcard
+            None if self.name_exists(name) => None,
             None => self.inner_lookup_wildcard(name, record_type, lookup_options),
             l => l.cloned(),
         }
+    }
+
+    /// A name exists if it, or any name below it, owns records (RFC 4592 section 2.2.2)
+    fn name_exists(&self, name: &LowerName) -> bool {
+        self.records.keys().any(|key| name.zone_of(key.name()))
     }
 
     fn inner_lookup_wildcard(
